@@ -341,13 +341,13 @@ class P(Prop):
         return {"idx": [] if r == "_" else [int(x) for x in r.split(",")]}
 
     def compare(self, case, impl_out, model_out):
+        if case.get("dom"):
+            return None   # single/no candidate, asymmetric matrix: outside the property's domain, behaviour left free
         if "err" in impl_out or "err" in model_out:
             if impl_out.get("err") == model_out.get("err"):
                 return None
             return "impl=%s model=%s" % (impl_out, model_out)
         k = case["kind"]
-        if k == "stops":
-            return None if impl_out["idx"] == model_out["idx"] else "delegated call: impl=%s model=%s" % (impl_out["idx"], model_out["idx"])
         if k in ("sym", "part"):
             s, M = self.matrix(case)
             if s == "q":
@@ -361,7 +361,15 @@ class P(Prop):
             if same_cost and is_chain(impl_out["idx"], len(M) - 1):
                 return None
             return "impl=%s model=%s" % (impl_out, model_out)
-        return Prop.compare(self, case, impl_out, model_out)
+        if impl_out["idx"] == model_out["idx"]:
+            return None
+        # front ends: same rule, the cost of both selections is recomputed exactly from the case's cost table
+        Cx = [[Fraction(v) for v in r] for r in (impl_out["C"] if k == "stops" else case["W"])]
+        N = len(Cx) - 1
+        if (is_chain(impl_out["idx"], N) and is_chain(model_out["idx"], N)
+                and chain_cost(Cx, impl_out["idx"]) == chain_cost(Cx, model_out["idx"])):
+            return None
+        return "impl=%s model=%s" % (impl_out["idx"], model_out["idx"])
 
     # ---------------------------------------------------------------- oracle (transfer)
     def requested_max(self, case):
@@ -433,6 +441,15 @@ class P(Prop):
         if k == "stops" and len(case["pts"]) > 4:
             for d in range(len(case["pts"])):
                 yield dict(case, pts=case["pts"][:d] + case["pts"][d + 1:])
+
+    def search_cases(self, rng):
+        out = [c for c in self.cases(rng, "quick")]
+        for vals in itertools.product("01", repeat=10):
+            for mode in ("min", "max"):
+                out.append({"kind": "sym", "N": 5, "vals": "".join(vals), "mode": mode})
+        for _ in range(3000):
+            out.append(self.rand_matrix(rng, rng.randrange(3, 9), "q"))
+        return out
 
     def mutate(self, case, rng):
         k = case["kind"]
